@@ -40,7 +40,7 @@ ENCODED = ["twisted.web._newclient:HTTPParser.lineReceived", "twisted.web._newcl
            "twisted.web.http_headers:Headers.addRawHeader", "twisted.web.http_headers:Headers.getRawHeaders"]
 BOUNDS = {"quick": {"nb": 2}, "thorough": {"nb": 3}}
 B = {}
-BOUNDS_TEXT = ("20 response shapes (GET 200 Content-Length / chunked / close-delimited / 100-then-200; GET 204; GET 304; "
+BOUNDS_TEXT = ("21 response shapes (chunked with chunk extensions '2;x=y' / '0;z' at every split index; GET 200 Content-Length / chunked / close-delimited / 100-then-200; GET 204; GET 304; "
                "HEAD 200 with Content-Length; HEAD 200 chunked; each of the three GET 200 framings preceded by an interim "
                "100/103 response carrying Content-Length: 0 / Content-Length: 7 / Transfer-Encoding: chunked / "
                "Connection: close and a custom header; quick tier: interim shapes get the k family at protocol level "
@@ -147,6 +147,10 @@ for _fr in ("cl", "chunked", "close"):
     for _it in INTERIMS:
         SHAPES.append(("GET", _it, "HTTP/1.1 200 OK", _fr, True))
         CODES.append(200)
+# chunked body whose size lines carry a chunk extension (RFC 9112 7.1.1: ignored by the recipient)
+XSHAPE = len(SHAPES)
+SHAPES.append(("GET", "", "HTTP/1.1 200 OK", "chunkedx", True))
+CODES.append(200)
 
 
 def _build(shape, body, hv):
@@ -158,7 +162,7 @@ def _build(shape, body, hv):
         head += "Content-Length: %d\r\n" % nb
     elif framing == "cl5":
         head += "Content-Length: 5\r\n"
-    elif framing == "chunked":
+    elif framing in ("chunked", "chunkedx"):
         head += "Transfer-Encoding: chunked\r\n"
     head += "\r\n"
     if not hasbody:
@@ -166,6 +170,10 @@ def _build(shape, body, hv):
         return method, head, body, 0, "nobody"
     if framing == "cl":
         return method, head, body + "Z", 0, "cl"
+    if framing == "chunkedx":
+        if nb == 0:
+            return method, head, "0;x=y\r\n\r\nZ", 0, "chunked"
+        return method, head, "%x;x=y\r\n" % nb + body + "\r\n0;z\r\n\r\nZ", 7, "chunked"
     if framing == "chunked":
         if nb == 0:
             return method, head, "0\r\n\r\nZ", 0, "chunked"
@@ -466,7 +474,14 @@ def _shards_for(hname):
         for s in range(len(SHAPES)):
             if quick and s == 3:
                 continue     # subsumed by the interim-with-headers shapes (kept in the thorough tier)
-            interim = s >= NBASE
+            interim = NBASE <= s < XSHAPE
+            if s == XSHAPE:
+                # every split index of the whole stream at both levels (thorough: all families, all lengths)
+                for n in ([nb] if quick else list(range(0, nb + 1))):
+                    out.append(("shape == %d" % s, "len(body) == %d" % n, "k == -1", "split >= 1"))
+                    if not quick:
+                        out.append(("shape == %d" % s, "len(body) == %d" % n, "split == 0"))
+                continue
             lens = [nb] if (s >= 4) else ([0, nb] if quick else list(range(0, nb + 1)))
             for n in lens:
                 fam_k = ("shape == %d" % s, "len(body) == %d" % n, "split == 0")
@@ -499,14 +514,17 @@ VECTORS = {
                (6, "XY", "x", -1, 0, False), (7, "XY", "x", -1, 45, False), (0, "hi", "x", 0, 0, False),
                (0, "hi", "\r", -1, 0, False), (8, "hi", "x", -1, 0, False), (9, "hi", "x", -1, 60, True),
                (10, "hi", "x", -1, 0, False), (13, "hi", "x", -1, 70, False), (16, "hi", "x", -1, 0, False),
-               (18, "hi", "x", -1, 66, False), (19, "", "x", -1, 0, True), (17, "hi", "x", 80, 0, False)],
+               (18, "hi", "x", -1, 66, False), (19, "", "x", -1, 0, True), (17, "hi", "x", 80, 0, False),
+               (20, "hi", "x", -1, 52, False), (20, "hi", "x", -1, 51, True), (20, "", "x", -1, 50, False),
+               (20, "hi", "x", 61, 0, False)],
     "proto": [(0, "hi", "x", -1, 0, False, True), (0, "hi", "x", 30, 0, True, False), (1, "ab", "x", -1, 49, False, True),
               (1, "ab", "x", 55, 0, False, True), (2, "zz", "x", -1, 5, True, True), (3, "q", "x", -1, 25, False, False),
               (4, "XY", "x", -1, 0, False, True), (5, "XY", "x", -1, 1, True, True), (6, "XY", "x", -1, 0, False, False),
               (7, "XY", "x", -1, 44, False, True), (0, "hi", "x", 0, 0, False, True), (2, "", "x", 17, 0, False, True),
               (8, "hi", "x", -1, 0, False, True), (9, "hi", "x", -1, 0, False, True), (11, "hi", "x", -1, 0, False, True),
               (12, "hi", "x", -1, 61, False, True), (15, "hi", "x", -1, 0, True, True), (16, "hi", "x", -1, 0, False, True),
-              (17, "hi", "x", 85, 0, False, False), (19, "hi", "x", -1, 30, False, True)],
+              (17, "hi", "x", 85, 0, False, False), (19, "hi", "x", -1, 30, False, True),
+              (20, "hi", "x", -1, 52, False, True), (20, "hi", "x", -1, 53, True, False), (20, "hi", "x", -1, 0, False, True)],
 }
 
 
